@@ -1389,6 +1389,10 @@ DIRECTED_HIST = [
              ["tstart", 1], ["tjoin", 1], ["remove", 1], ["make", "instr", 1, "a", 0, 0, "loop", 0], ["make", "rpc", 1, "a", 0, 0, "loop", 0],
              ["remove", 1], ["call", 1], ["make", "rpc", 1, "a", 1, 0, "loop", 0], ["make", "rpc", 1, "a", 0, 0, "loop", 0], ["stop"], ["probe"]]),
     (True, [["make", "rpc", 1, "a", 0, 0, "loop", 0], ["get", 1, "rpc"], ["stop"], ["start", 0, 0], ["addh", "base"], ["stop"], ["stop"], ["probe"]]),
+    # tasks joined before / after they ran, joined twice, started after the join (found by the thorough tier: model repaired)
+    (False, [["start", 0, 0], ["make", "task", 1, "a", 0, 0, "raise", 0], ["tjoin", 1], ["tjoin", 1], ["tstart", 1],
+             ["make", "task", 2, "b-1", 0, 1, "raise", 0], ["tstart", 2], ["tjoin", 2], ["tjoin", 2], ["tstart", 2],
+             ["make", "task", 3, "c_(2)", 0, 0, "finish", 0], ["tstart", 3], ["tstart", 3], ["tjoin", 3], ["iopen", 3], ["stop"], ["probe"]]),
 ]
 
 DIRECTED_SINGLE = [
@@ -1524,17 +1528,17 @@ class C12(Prop):
         for ops in DIRECTED_SINGLE:
             case = {"kind": "single", "seed": seed0 + n, "ops": ops}
             self._add(res, batch, case, run_case(case)); n += 1
-        for _ in range(ctx.scale(1100, 12000)):
+        for _ in range(ctx.scale(2200, 12000)):
             cfg_tcp, ops = gen_history(rng, ctx.scale(10, 16))
             case = {"kind": "hist", "seed": seed0 + n, "cfg_tcp": cfg_tcp, "ops": ops,
                     "policy": "pct" if rng.random() < 0.2 else "weighted"}
             self._add(res, batch, case, run_case(case)); n += 1
         ctx.log(f"layer A done: {n} scenarios")
-        for _ in range(ctx.scale(400, 4000)):
+        for _ in range(ctx.scale(700, 4000)):
             case = {"kind": "single", "seed": seed0 + n, "ops": gen_singleton(rng, ctx.scale(5, 8))}
             self._add(res, batch, case, run_case(case)); n += 1
         ctx.log(f"layer B done: {n} scenarios")
-        for _ in range(ctx.scale(45, 450)):
+        for _ in range(ctx.scale(70, 450)):
             cfg_tcp, pop, mk = gen_population(rng)
             combos = [(g, u) for g in GATES for u in UNTIL if g is not None] + [(None, "stopped")] * ctx.scale(3, 8)
             for g, u in combos:
